@@ -10,7 +10,8 @@ E1 = ("exploration", "bounded-exhaustive input-space exploration of the real cod
 TEXT = {
     "C01": (E1[0], "Every sequence of the stated finite families (all sequences up to a length over up to 5 symbols under 6 value maps, "
             "all boundary-straddling shapes) is built with the real QWaveletTree in every alias/element type and every query of the "
-            "complete argument alphabet is compared with a Vec reference: a coverage statement for the bounded space, which contains the "
+            "complete argument alphabet (incl. arguments that wrap around in a scaled unit) is compared with a Vec reference, on the value as built "
+            "and on its deserialized copy: a coverage statement for the bounded space, which contains the "
             "smallest member of every defect family the unit tests miss.", "§4 C01",
             "bounded-exhaustive enumeration of inputs x configurations x query arguments on the real code vs. reference model"),
     "C02": (E1[0], "All sequences / frequency profiles of the stated bounded families AND every tie order the two hash maps can produce "
@@ -25,31 +26,35 @@ TEXT = {
             "is compared with a Vec<u8> reference.", "§4 C05",
             "bounded-exhaustive enumeration of inputs x configurations x query arguments on the real code vs. reference model"),
     "C06": (E1[0], "Every bit vector of the bounded families is indexed by the real RSNarrow and RSWide and every rank/select/get/total "
-            "is compared with a Vec<bool> reference.", "§4 C06",
+            "is compared with a Vec<bool> reference - on values from every construction route and on their deserialized copies; a dedicated "
+            "family places the m-th one / zero (where a select sample is taken) at every small distance from the end.", "§4 C06",
             "bounded-exhaustive enumeration of inputs x query arguments on the real code vs. reference model"),
     "C07": (E1[0], "Every dense/threshold/sparse group sequence up to g groups (and partial last groups), plus all short bit vectors, is "
-            "built into the real DArray<false/true> by every constructor and all select/iterator answers are compared with a Vec<bool> "
-            "reference.", "§4 C07",
+            "built into the real DArray<false/true> by every constructor (groups evenly spread, packed at the start, packed at the end with a hole) "
+            "and all select/iterator answers are compared with a Vec<bool> reference, also on the deserialized copy.", "§4 C07",
             "bounded-exhaustive enumeration of group-shape histories x configurations on the real code vs. reference model"),
     "C08": ("model_checking", "Explicit-state model checking of the real BitVectorMut: every history up to the stated depth from 30 start "
             "states is executed on the implementation next to a Vec<bool>, every reachable state (hidden counters and padding included "
             "in the state key) is observed completely, counterexamples are replayed before being reported.", "§4 C08",
             "explicit-state BFS (stateright) over operation histories of the real code, lock-step reference model"),
-    "C12": ("model_checking", "All call histories over {next, next_back, len} up to length n+3 on every tree iterator, and all forward "
-            "histories incl. calls after exhaustion on the vector iterators, re-executed on the real iterators against a VecDeque.", "§4 C12",
+    "C12": ("model_checking", "All call histories over {next, next_back, len} up to length n+3 on every tree iterator, all forward "
+            "histories incl. calls after exhaustion on the vector iterators, and every overridable iterator method (nth, fold, try_fold, count, "
+            "last, nth_back, rfold, try_rfold and the adaptors built on them) after every prefix of next()/next_back() calls on the concrete "
+            "iterator types, re-executed on the real iterators against a VecDeque / slice.", "§4 C12",
             "exhaustive enumeration of iterator call histories on the real code (history = state), lock-step reference"),
     "C13": ("model_checking", "Explicit-state model checking of the real QVectorBuilder over push/extend histories with all integer types, plus "
-            "bounded-exhaustive collect for every integer type.", "§4 C13",
+            "bounded-exhaustive collect for every integer type and the iterator-operation histories of C12 on the quad vector iterators.", "§4 C13",
             "explicit-state BFS (stateright) over builder histories of the real code + bounded-exhaustive inputs"),
     "C09": (E1[0], "For every tree of a bounded family built to stress the prefetch estimates, rank_prefetch is compared with rank on every "
-            "position and a symbol alphabet, in three (thorough: four) builds, and the digests of all answers are compared between the "
+            "position and a symbol alphabet (on the tree as built and on its deserialized copy; element types up to u128), in three (thorough: four) builds, and the digests of all answers are compared between the "
             "builds with and without the prefetch feature; faults are caught by the child-process monitor.", "§4 C09",
             "bounded-exhaustive differential exploration (rank_prefetch vs rank; feature on vs off) on the real code"),
     "C10": (E1[0], "Every unchecked method is compared with its checked twin on every precondition-satisfying argument of the bounded "
-            "input zoo, in the optimized build and in the build with debug assertions and overflow checks.", "§4 C10",
+            "input zoo, in the optimized build and in the build with debug assertions and overflow checks; a checked method that answers None "
+            "where the precondition holds while the unchecked one returns a value is a disagreement.", "§4 C10",
             "bounded-exhaustive differential exploration (unchecked vs checked) in two build profiles"),
     "C11": (E1[0], "Every value of the bounded zoo makes the bincode round trip; equality, byte identity and the digest of the complete "
-            "query sweep are compared.", "§4 C11",
+            "query sweep are compared - for the value before it has answered any query and again after it has answered all of them.", "§4 C11",
             "bounded-exhaustive round-trip exploration on the real code (differential oracle)"),
     "C19": (E1[0], "All construction paths, clones, all ordered pairs of distinct short inputs and all element widths are compared "
             "differentially over the bounded zoo.", "§4 C19",
@@ -59,10 +64,11 @@ TEXT = {
             "panics, aborts, signals and sanitizer reports into failing executions.", "§4 C04",
             "bounded-exhaustive enumeration of states x methods x arguments under fault monitors (panic trap, signal journal, UB checks, ASan)"),
     "C14": (E1[0], "Every point of a grid of lengths (incl. 2^k+1, just after a capacity doubling), alphabet sizes, shapes, types and "
-            "construction paths is built under a counting allocator and the retained bytes are compared with the stated bound.", "§4 C14",
+            "construction paths (incl. iterators with unknown / loose upper / loose lower size hints) is built under a counting allocator and the retained bytes are compared with the stated bound.", "§4 C14",
             "bounded-exhaustive grid exploration with an allocation monitor on the real code"),
-    "C15": (E1[0], "Every profile x scale x arrangement of a grid is built under a counting allocator; retained bits are compared with "
-            "n*(H0+2) resp. n*(H0+1) plus the stated overheads, and with the plain tree over the same sequence.", "§4 C15",
+    "C15": (E1[0], "Every profile x scale x arrangement of a grid (and pairs built one after the other on one thread) is built under a counting allocator; "
+            "the level data itself (sizes of the levels read from the serde representation) is bounded exactly by n*(H0+2) resp. n*(H0+1) and by "
+            "the plain tree's, and the retained bits by the same plus the stated overheads.", "§4 C15",
             "bounded-exhaustive grid exploration with an allocation monitor on the real code"),
     "C16": (E1[0], "For every type implementing SpaceUsage and every grid point, space_usage_byte() is compared with the bytes actually "
             "kept alive (counting allocator + size_of_val); the scaled variants are compared exactly.", "§4 C16",
@@ -82,12 +88,12 @@ NOTE = {
     "C02": "Trusted: reference model, the hook's permutation code (add-only, off by default), minimum_redundancy (used only to label code shapes). Known finding KF2 (codes > 32 bits).",
     "C03": "Trusted: reference model, hook permutation code. Known finding KF2 (binary codes > 32 bits).",
     "C08": "Trusted: Vec<bool> reference, stateright's BFS. Known finding KF1 (BitVectorMut::get_bits off by one, pinned by the repository's own test). Depth bounds in the evidence.",
-    "C04": "Trusted: the allow-list of documented panics (matched on the documented condition, not the message), the signal journal, std's unsafe-precondition checks / ASan for out-of-bounds accesses that do not fault. utils::* free functions are C17's subject.",
+    "C04": "Thorough tier adds a Miri interpretation of a miniature of the sweep (mini.rs). Trusted: the allow-list of documented panics (matched on the documented condition, not the message), the signal journal, std's unsafe-precondition checks / ASan for out-of-bounds accesses that do not fault. utils::* free functions are C17's subject.",
     "C14": "Trusted: counting allocator; constants C=2048 bytes/level, C0=512, +1% calibrated with head-room on the current tree. n large enough for the factor to dominate: >= 2^16.",
-    "C15": "Trusted: counting allocator; H0 computed by the harness; table allowance 10*(m+1)+40*distinct+4096 bytes.",
+    "C15": "Trusted: counting allocator; H0 computed by the harness; the level sizes are the field `lens` of the tree's serde representation (if a refactoring renames it the exact check is skipped and counted, the heap-based one remains); table allowance 10*(m+1)+40*distinct+4096 bytes.",
     "C16": "Trusted: counting allocator. Tolerance 2% + 256 bytes per component + 512 (the property's 'few percent plus a constant per component').",
     "C17": "Trusted: naive bit-scan / stable-sort references. Not all 2^64 (2^128) words are enumerated; see evidence.coverage.bounds for what is exhaustive.",
-    "C18": "Trusted: shuttle's DFS scheduler, the arena allocator, the trap-flag/fork preemption explorer (sequentially consistent interleavings, one preemption, point cap). For subjects whose queries never write to the memory they own (arena digest) finer interleavings are covered by commutation of read-only steps.",
+    "C18": "Trusted: shuttle's DFS scheduler, the arena allocator, the trap-flag/fork preemption explorer (sequentially consistent interleavings, one preemption, point cap; each triple on the shared instance, on a never-queried clone and on a never-queried deserialized copy). For subjects whose queries never write to the memory they own (arena digest) finer interleavings are covered by commutation of read-only steps.",
     "C09": "Trusted: the explorer's digest; rank itself is validated by C01/C02. Prefetch intrinsics have no architectural effect, so only panics, faults and answer changes are observable. Known finding KF2 does not arise below 17 levels.",
     "C10": "Trusted: the reference model decides which arguments satisfy the precondition. Known finding KF1 (BitVectorMut::get_bits None at index+len==len while get_bits_unchecked answers).",
     "C11": "Trusted: bincode; PartialEq of the types (also exercised by C19).",
